@@ -26,14 +26,61 @@ _STAGE_SYN = {"concat": "concat", "append": "concat", "concatenate": "concat", "
 _STAGE_NEUTRAL = {"Series", "array", "asarray", "to_numpy", "astype", "tolist"}
 
 
-def _stages(e: ast.AST):
+def _sorted_insert(c: ast.Call, fn_node):
+    """np.concatenate([X[:k], [v], X[k:]]) with k = np.searchsorted(X, v, ..) -> (X, v)"""
+    if not (c.args and isinstance(c.args[0], (ast.List, ast.Tuple)) and len(c.args[0].elts) == 3):
+        return None
+    a, mid, b = c.args[0].elts
+    if not (isinstance(a, ast.Subscript) and isinstance(b, ast.Subscript) and isinstance(a.slice, ast.Slice) and isinstance(b.slice, ast.Slice) and
+            unparse(a.value) == unparse(b.value) and a.slice.lower is None and b.slice.upper is None and a.slice.upper is not None and
+            b.slice.lower is not None and unparse(a.slice.upper) == unparse(b.slice.lower) and isinstance(mid, (ast.List, ast.Tuple)) and len(mid.elts) == 1):
+        return None
+    k = a.slice.upper
+    if isinstance(k, ast.Name) and fn_node is not None:
+        ds = [x.value for x in ast.walk(fn_node) if isinstance(x, ast.Assign) and len(x.targets) == 1 and isinstance(x.targets[0], ast.Name) and x.targets[0].id == k.id]
+        k = ds[0] if len(ds) == 1 else k
+    if isinstance(k, ast.Call) and call_name(k) == "searchsorted" and len(k.args) >= 2 and unparse(k.args[0]) == unparse(a.value) and \
+            unparse(k.args[1]) == unparse(mid.elts[0]):
+        return a.value, mid.elts[0]
+    return None
+
+
+def _stages(e: ast.AST, fn_node=None):
     """the pipeline a value flows through, innermost first, across pandas method chains (`x.a().b()`) and numpy function calls
     (`np.f(x, ..)`, the flowing value being the first argument); representation changes (Series / to_numpy / asarray) are
     skipped, numpy spellings are named like their pandas counterparts"""
     calls, names = [], []
-    while isinstance(e, ast.Call):
+    hops = 0
+    while True:
+        if isinstance(e, ast.Name) and fn_node is not None and hops < 6:
+            # a named intermediate bound once
+            ds = [x.value for x in ast.walk(fn_node) if isinstance(x, ast.Assign) and len(x.targets) == 1 and isinstance(x.targets[0], ast.Name) and
+                  x.targets[0].id == e.id]
+            if len(ds) == 1:
+                e = ds[0]
+                hops += 1
+                continue
+        if not isinstance(e, ast.Call):
+            break
         nm = call_name(e)
         module_call = isinstance(e.func, ast.Attribute) and isinstance(e.func.value, ast.Name) and e.func.value.id in ("np", "numpy", "pd", "pandas")
+        if nm == "Series" and module_call and any(k.arg == "index" for k in e.keywords) and e.args:
+            # pd.Series(values, index=labels): the values labelled — set_axis(labels) spelled at construction
+            calls.insert(0, e)
+            names.insert(0, "set_axis")
+            e = e.args[0]
+            continue
+        if nm == "diff" and module_call:
+            # np.diff has no leading NaN to drop: diff + dropna in one
+            calls[0:0] = [e, e]
+            names[0:0] = ["diff", "dropna"]
+            e = e.args[0] if e.args else None
+            continue
+        if nm == "concatenate" and module_call and _sorted_insert(e, fn_node) is not None:
+            # X with v inserted at searchsorted(X, v): concat + sort in one (X sorted: checked by the order typestate)
+            calls[0:0] = [e, e]
+            names[0:0] = ["concat", "sort_values"]
+            break
         if nm not in _STAGE_NEUTRAL:
             calls.insert(0, e)
             names.insert(0, _STAGE_SYN.get(nm, nm))
@@ -61,7 +108,7 @@ def rule_r1(ctx) -> List[R.Inst]:
     fb = _frame_pairing_form(rets[0].value)
     if fb is not None:
         return _r1_frame_form(ctx, fn, file, rets[0], fb)
-    calls, names = _stages(rets[0].value)
+    calls, names = _stages(rets[0].value, fn.node)
     insts = []
     want = ["concat", "sort_values", "diff", "dropna", "set_axis", "groupby", "sum", "idxmax"]
     core = [n for n in names if n in want]
@@ -79,7 +126,17 @@ def rule_r1(ctx) -> List[R.Inst]:
     cc = by["concat"]
     parts = cc.args[0].elts if cc.args and isinstance(cc.args[0], (ast.List, ast.Tuple)) else (
         list(cc.args[:2]) if call_name(cc) == "append" else [])
-    ptxt = [unparse(p) for p in parts]
+    si = _sorted_insert(cc, fn.node) if call_name(cc) == "concatenate" else None
+    if si is not None:
+        parts = list(si)
+
+    def _res1(e, depth=0):
+        if isinstance(e, ast.Name) and depth < 4:
+            ds = [x.value for x in ast.walk(fn.node) if isinstance(x, ast.Assign) and len(x.targets) == 1 and isinstance(x.targets[0], ast.Name) and x.targets[0].id == e.id]
+            if len(ds) == 1:
+                return _res1(ds[0], depth + 1)
+        return e
+    ptxt = [unparse(_res1(p)) for p in parts]
     stack_all = [n for n in walk_no_nested(fn.node) if isinstance(n, ast.Call) and call_name(n) == "stack"]
     ok_span = len(parts) == 2 and any(".offset" in t and "max()" in t for t in ptxt) and \
         all(not (s.args or s.keywords) for s in stack_all) and stack_all
@@ -93,12 +150,15 @@ def rule_r1(ctx) -> List[R.Inst]:
     sites = O.analyse_function(ctx, DOM)
     if isinstance(sites, Exception):
         raise AnalysisError(f"order analysis failed: {sites}")
-    sa = [s for s in sites if s.what == "set_axis"]
+    sa = [s for s in sites if s.what in ("set_axis", "Series(values, index=...)")]
     if len(sa) != 1:
         insts.append(R.undec(rid, "interval<->bpm", file, rets[0].lineno, "set_axis pairing site not found"))
     else:
         tags = [t for t in sa[0].tags if t.kind != "scalar"]
-        arg = by["set_axis"].args[0] if by["set_axis"].args else None
+        sx = by["set_axis"]
+        arg = (sx.args[0] if sx.args else None) if call_name(sx) == "set_axis" else next((k.value for k in sx.keywords if k.arg == "index"), None)
+        while isinstance(arg, ast.Call) and call_name(arg) in ("Index", "array", "asarray", "to_numpy", "tolist") and (arg.args or isinstance(arg.func, ast.Attribute)):
+            arg = arg.args[0] if arg.args else arg.func.value
         is_bpm = arg is not None and unparse(arg).endswith(".bpm")
         if len(tags) == 2 and tags[0].same_order(tags[1]) and tags[0].kind == "sorted" and is_bpm:
             insts.append(R.ok(rid, "interval<->bpm", file, sa[0].line, idiom=f"both {tags[0]}; labels are the bpm column"))
@@ -129,6 +189,15 @@ def _frame_pairing_form(e):
     if not (isinstance(e, ast.Call) and call_name(e) == "idxmax" and isinstance(e.func, ast.Attribute)):
         return None
     sm = e.func.value
+    # named aggregation: F.groupby(K).agg(total=(V, "sum"))["total"].idxmax()  ==  F.groupby(K)[V].sum().idxmax()
+    if isinstance(sm, ast.Subscript) and isinstance(sm.slice, ast.Constant) and isinstance(sm.value, ast.Call) and call_name(sm.value) == "agg" and \
+            not sm.value.args and len(sm.value.keywords) == 1 and sm.value.keywords[0].arg == sm.slice.value and \
+            isinstance(sm.value.keywords[0].value, ast.Tuple) and len(sm.value.keywords[0].value.elts) == 2 and \
+            isinstance(sm.value.keywords[0].value.elts[1], ast.Constant) and sm.value.keywords[0].value.elts[1].value == "sum":
+        g0 = sm.value.func.value
+        sel = ast.Subscript(value=g0, slice=sm.value.keywords[0].value.elts[0], ctx=ast.Load())
+        sm = ast.copy_location(ast.Call(func=ast.Attribute(value=sel, attr="sum", ctx=ast.Load()), args=[], keywords=[]), sm)
+        ast.fix_missing_locations(sm)
     if not (isinstance(sm, ast.Call) and call_name(sm) == "sum" and isinstance(sm.func, ast.Attribute) and isinstance(sm.func.value, ast.Subscript)):
         return None
     sel = sm.func.value
@@ -153,7 +222,7 @@ def _r1_frame_form(ctx, fn, file, ret, fb) -> List[R.Inst]:
     rid = "C19.R1"
     labels, durs, K, V, fr, g = fb
     insts = []
-    calls, names = _stages(durs)
+    calls, names = _stages(durs, fn.node)
     want = ["concat", "sort_values", "diff", "dropna"]
     core = [n for n in names if n in want + ["set_axis", "groupby", "sum", "idxmax"]]
     if core == want:
